@@ -80,43 +80,63 @@ def need(fn_map, name, relpath):
 
 
 def validate_wiring(rep, relpath, funcs, extra_args=''):
-    """validate() = checksum(number...) == T inside a catch-all that raises InvalidFormat, then
-    InvalidChecksum, then returns the number.  Returns T."""
+    """validate(): checksum(number...) is evaluated inside a catch-all that raises InvalidFormat; the number is returned
+    exactly when that checksum equals T, otherwise InvalidChecksum is raised.  Accepted spellings: the comparison inside or
+    after the try block; `if not ok: raise ...; return number` or `if ok: return number; raise ...`.  Returns T."""
+    import copy
     fn = need(funcs, 'validate', relpath)
     body = strip_doc(fn.body)
     num = fn.args.args[0].arg
-    T = None
-    ok_shape = False
-    # optional emptiness gate first
     stmts = list(body)
+    # optional emptiness gate first
     if stmts and isinstance(stmts[0], ast.If) and match_stmts('if not %s:\n    raise InvalidFormat()' % num, [stmts[0]]) is not None:
         stmts = stmts[1:]
-    if len(stmts) == 3 and isinstance(stmts[0], ast.Try):
-        tr = stmts[0]
-        if len(tr.body) == 1 and isinstance(tr.body[0], ast.Assign):
-            b = match_expr('checksum(E_a) == K_t', tr.body[0].value)
-            if b is None and isinstance(tr.body[0].value, ast.Compare) and isinstance(tr.body[0].value.left, ast.Call) \
-                    and src(tr.body[0].value.left.func) == 'checksum' and len(tr.body[0].value.comparators) == 1 \
-                    and isinstance(tr.body[0].value.comparators[0], ast.Constant) and isinstance(tr.body[0].value.ops[0], ast.Eq):
-                c = tr.body[0].value
-                b = {'E_a': c.left.args[0] if c.left.args else None, 'K_t': c.comparators[0]}
-            if b is not None and b['E_a'] is not None and src(b['E_a']) == num:
-                T = b['K_t'].value
-                flag = tr.body[0].targets[0]
-                catch = any((h.type is None or src(h.type) in ('Exception', 'BaseException')) and len(h.body) == 1
-                            and isinstance(h.body[0], ast.Raise) and h.body[0].exc is not None
-                            and src(h.body[0].exc).startswith('InvalidFormat') for h in tr.handlers)
-                second = match_stmts('if not %s:\n    raise InvalidChecksum()' % src(flag), [stmts[1]]) is not None
-                third = match_stmts('return %s' % num, [stmts[2]]) is not None
-                rep.check(catch, 'ALG.validate-catch-all', relpath, 'validate', src(tr), tr.lineno,
-                          'checksum() is not evaluated inside `except Exception: raise InvalidFormat()`')
-                rep.check(second, 'ALG.validate-raises', relpath, 'validate', src(stmts[1]), stmts[1].lineno,
-                          'a failed comparison does not raise InvalidChecksum')
-                rep.check(third, 'ALG.validate-returns-number', relpath, 'validate', src(stmts[2]), stmts[2].lineno,
-                          'validate() does not return its argument')
-                ok_shape = True
-    if not ok_shape:
-        raise AnalysisError('%s:%d validate() is not `checksum(number) == T` inside a catch-all followed by raise/return' % (relpath, fn.lineno))
+    bad = AnalysisError('%s:%d validate() is not `checksum(number) == T` inside a catch-all followed by raise/return' % (relpath, fn.lineno))
+    if len(stmts) != 3 or not isinstance(stmts[0], ast.Try):
+        raise bad
+    tr = stmts[0]
+    if not (len(tr.body) == 1 and isinstance(tr.body[0], ast.Assign) and len(tr.body[0].targets) == 1 and isinstance(tr.body[0].targets[0], ast.Name)) \
+            or tr.orelse or tr.finalbody:
+        raise bad
+    flag = tr.body[0].targets[0].id
+    value = tr.body[0].value
+    # the accepting condition, with the flag replaced by what it holds
+    s1, s2 = stmts[1], stmts[2]
+    if isinstance(s1, ast.If) and not s1.orelse and len(s1.body) == 1 and isinstance(s1.body[0], ast.Raise) and isinstance(s2, ast.Return):
+        cond, negated, raise_st, ret_st = s1.test, True, s1.body[0], s2
+    elif isinstance(s1, ast.If) and not s1.orelse and len(s1.body) == 1 and isinstance(s1.body[0], ast.Return) and isinstance(s2, ast.Raise):
+        cond, negated, raise_st, ret_st = s1.test, False, s2, s1.body[0]
+    else:
+        raise bad
+    if negated:
+        if isinstance(cond, ast.UnaryOp) and isinstance(cond.op, ast.Not):
+            cond = cond.operand
+        elif isinstance(cond, ast.Compare) and len(cond.ops) == 1 and isinstance(cond.ops[0], ast.NotEq):
+            cond = ast.Compare(left=cond.left, ops=[ast.Eq()], comparators=cond.comparators)
+        else:
+            raise bad
+
+    class Sub(ast.NodeTransformer):
+        def visit_Name(self, node):
+            return copy.deepcopy(value) if node.id == flag and isinstance(node.ctx, ast.Load) else node
+    cond = Sub().visit(copy.deepcopy(cond))
+    c = None
+    if isinstance(cond, ast.Compare) and len(cond.ops) == 1 and isinstance(cond.ops[0], ast.Eq):
+        for call, const in ((cond.left, cond.comparators[0]), (cond.comparators[0], cond.left)):
+            if isinstance(call, ast.Call) and src(call.func) == 'checksum' and call.args and isinstance(const, ast.Constant):
+                c = (call, const)
+    if c is None or src(c[0].args[0]) != num:
+        raise bad
+    T = c[1].value
+    catch = any((h.type is None or src(h.type) in ('Exception', 'BaseException')) and len(h.body) == 1
+                and isinstance(h.body[0], ast.Raise) and h.body[0].exc is not None
+                and src(h.body[0].exc).startswith('InvalidFormat') for h in tr.handlers)
+    rep.check(catch, 'ALG.validate-catch-all', relpath, 'validate', src(tr), tr.lineno,
+              'checksum() is not evaluated inside `except Exception: raise InvalidFormat()`')
+    rep.check(raise_st.exc is not None and src(raise_st.exc).startswith('InvalidChecksum'), 'ALG.validate-raises', relpath, 'validate', src(raise_st), raise_st.lineno,
+              'a failed comparison does not raise InvalidChecksum')
+    rep.check(ret_st.value is not None and src(ret_st.value) == num, 'ALG.validate-returns-number', relpath, 'validate', src(ret_st), ret_st.lineno,
+              'validate() does not return its argument')
     return T
 
 
@@ -527,27 +547,39 @@ def mod_97_10(rep):
     rep.check(not und_digits, 'ALG.TRANS', relpath, 'checksum', lab + ' digits', ck.lineno,
               'adjacent digit transposition undetected: %r' % (und_digits[:1],), what='%s: every adjacent digit swap detected' % lab)
     gen = need(funcs, 'calc_check_digits', relpath)
-    g = match_stmts("return K_fmt %% (K_g - checksum(%s + K_pad))" % gen.args.args[0].arg, strip_doc(gen.body))
-    if g is None:
-        raise AnalysisError('%s:%d calc_check_digits() is not FMT %% (G - checksum(number + PAD))' % (relpath, gen.lineno))
-    fmt, G, pad = g['K_fmt'].value, g['K_g'].value, g['K_pad'].value
-    for s in range(M):
-        t = s
-        for ch in pad:
-            t = fsm.delta[0][(t, ch)]
+    # the generator is evaluated for every payload state s with checksum(<payload + literal>) standing for "state s, then the
+    # literal's characters": whatever spelling it has, it must return as many digits as it padded and they must lead to T
+    from ..minieval import run as run_body
+    gnum = gen.args.args[0].arg
+    gbody = strip_doc(gen.body)
+    for s_ in range(M):
+        pads = []
+
+        def hook(arg, _s=s_):
+            if not isinstance(arg, str) or any(ch not in symbols for ch in arg):
+                raise Undecidable('checksum() of %r' % (arg,))
+            pads.append(arg)
+            t = _s
+            for ch in arg:
+                t = fsm.delta[0][(t, ch)]
+            return t
         try:
-            cd = fmt % (G - t)
-        except Exception:
+            cd = run_body(gbody, dict(consts, **{gnum: ''}), {'checksum': hook})
+        except Unsupported as e:
+            raise AnalysisError('%s:%d calc_check_digits() uses a construct the evaluator does not know: %s' % (relpath, gen.lineno, e))
+        except Undecidable:
             cd = None
-        okk = cd is not None and len(cd) == len(pad) and all(c in '0123456789' for c in cd)
+        pad = pads[0] if len(pads) == 1 else None
+        okk = isinstance(cd, str) and pad is not None and len(cd) == len(pad) and all(c in '0123456789' for c in cd)
+        u = None
         if okk:
-            u = s
+            u = s_
             for ch in cd:
                 u = fsm.delta[0][(u, ch)]
             okk = (u == T)
-        rep.check(okk, 'ALG.GEN', relpath, 'calc_check_digits', '%s state=%d' % (lab, s), gen.lineno,
-                  'check digits %r generated for payload state %d do not lead to the accepted state %r' % (cd, s, T),
-                  what='payload state %d -> check digits %r -> state %r' % (s, cd, T))
+        rep.check(okk, 'ALG.GEN', relpath, 'calc_check_digits', '%s state=%d' % (lab, s_), gen.lineno,
+                  'check digits %r generated for payload state %d (placeholder %r) lead to state %r, accepted is %r' % (cd, s_, pad, u, T),
+                  what='payload state %d -> check digits %r -> state %r' % (s_, cd, T))
     return M
 
 
